@@ -12,10 +12,11 @@ git diff -- . ':!demo_seed' ':!SEED.md' > $D/patch.diff
 rm -rf $D/demo; cp -r demo_seed $D/demo 2>/dev/null; cp SEED.md $D/SEED.md 2>/dev/null
 echo "== with change: build + tests"; go build ./... && go test -vet=off -count=1 ./... > /tmp/seed-$N.test 2>&1; T_WITH=$?; tail -3 /tmp/seed-$N.test
 echo "== with change: demo"; timeout 300 go run ./demo_seed > /tmp/seed-$N.demo1 2>&1; D_WITH=$?; tail -3 /tmp/seed-$N.demo1
-FILES=$(git diff --name-only -- . ':!demo_seed' ':!SEED.md')
-git stash -q -- $FILES
+# NOT git stash: the stash stack is shared by all worktrees of /repo, concurrent intakes would swap their changes
+git apply -R $D/patch.diff
 echo "== without change: demo"; timeout 300 go run ./demo_seed > /tmp/seed-$N.demo0 2>&1; D_WITHOUT=$?; tail -3 /tmp/seed-$N.demo0
-git stash pop -q
+git apply $D/patch.diff
+git diff -- . ':!demo_seed' ':!SEED.md' | cmp -s - $D/patch.diff || { echo "worktree does not carry the recorded patch any more"; exit 4; }
 echo "tests_with=$T_WITH demo_with=$D_WITH demo_without=$D_WITHOUT"
 git -C /repo apply --check $D/patch.diff || { echo "patch does not apply to /repo HEAD"; }
 # the check must not see the demo directory / SEED.md as part of the repository under test: move them aside
